@@ -568,7 +568,7 @@ func (in *interp) visitInstr(fr *frame, instr ssa.Instruction) (ret bool) {
 		fr.set(instr, newMap(instr.Type().Underlying().(*types.Map).Key()))
 
 	case *ssa.Range:
-		fr.set(instr, in.rangeIter(fr.get(instr.X), instr.X.Type()))
+		fr.set(instr, in.rangeIter(fr, fr.get(instr.X), instr.X.Type()))
 
 	case *ssa.Next:
 		fr.set(instr, fr.get(instr.Iter).(iter).next())
@@ -924,13 +924,26 @@ func (in *interp) lookup(fr *frame, instr *ssa.Lookup, x, idx value) value {
 	panic(fmt.Sprintf("unexpected x type in Lookup: %T", x))
 }
 
-func (in *interp) rangeIter(x value, t types.Type) iter {
+func (in *interp) rangeIter(fr *frame, x value, t types.Type) iter {
 	switch x := x.(type) {
 	case *smap:
 		if x == nil {
 			return &mapIter{ts: in.ts}
 		}
-		return &mapIter{snap: append([]*mentry{}, x.entries...), m: x, ts: in.ts}
+		snap := append([]*mentry{}, x.entries...)
+		// Go starts a map range at a random entry. For the functions named by the harness spec
+		// (map_rotate) the start is an explored choice: every rotation of the insertion order (which is
+		// exactly what the runtime does for a map that fits one bucket, i.e. up to 8 entries).
+		if n := len(snap); n >= 2 && in.cfg != nil && in.cfg.mapRotate(fr.fn.String()) {
+			alts := make([]*Term, n)
+			for i := range alts {
+				alts[i] = in.ts.True
+			}
+			k := in.decide(alts, true, "map-range-start")
+			snap = append(append([]*mentry{}, snap[k:]...), snap[:k]...)
+			in.event("map-range-start", fmt.Sprintf("%s: entry %d of %d", fr.fn.Name(), k, n))
+		}
+		return &mapIter{snap: snap, m: x, ts: in.ts}
 	case string, symstr:
 		return &stringIter{in: in, s: x}
 	}
